@@ -108,7 +108,31 @@ func ens_average_baseline(v *kxps, old_v kxps, now time.Time) bool {
 	return v.average == 0 && v.create == old_v.create || v.create == now
 }
 
-//@ assigns (*kxps).sampleAverage v.average, v.create
+// the value: the counter's increase over its baseline divided by the time since the baseline was taken, at millisecond
+// resolution, per second; 0 while there is no baseline, no increase or no elapsed millisecond. (The source may answer
+// differently on every call; the value reported is computed from its latest answer.)
+func ghost_lastv_Count() uint64 { panic("ghost") }
+func ghost_calls(callee string) int { panic("ghost") }
+
+//@ count-calls (*kxps).sampleAverage Count
+//@ ensures (*kxps).sampleAverage C20.average.value
+func ens_average_value(old_v kxps, now time.Time, ret0 float64) bool {
+	c := ghost_lastv_Count()
+	if ghost_calls("Count") == 1 { // the first reading was 0: nothing observed yet
+		return c == 0 && ret0 == 0
+	}
+	if old_v.average == 0 {
+		return ret0 == 0
+	}
+	diff := int64(c - old_v.average)
+	ms := int64(now.Sub(old_v.create) / time.Millisecond)
+	if diff <= 0 || ms <= 0 {
+		return ret0 == 0
+	}
+	return spec_same(ret0, float64(diff)*1000/float64(ms))
+}
+
+//@ assigns (*kxps).sampleAverage v.average, v.create, ghost.calls
 
 // bitrate meter: bytes per second scaled to kbit/s; reading before Start is refused
 //@ requires (*kbps).Kbps10s
